@@ -3,7 +3,7 @@ import os, json, re, time
 from concurrent.futures import ThreadPoolExecutor
 import cb
 from cb import ToolError, Report, log
-from checks import register, Drift
+from checks import register, Drift, ConformanceDrift
 
 POINTS = ["poller.start", "poller.top", "poller.after_mono", "poller.after_query", "poller.after_send", "poller.before_recv",
           "writer.start", "writer.after_new", "writer.before_recv", "writer.after_handle"]
@@ -130,5 +130,5 @@ def c15(tier, seed):
             drift = f"event log of the real run() not explained by ThreadsTrace ({r.distinct} states explored)"
     rc = rep.finish()
     if rc == 0 and drift:
-        raise Drift(drift)
+        raise ConformanceDrift(drift)
     return rc
